@@ -7,6 +7,7 @@ import GoProbeModel.Spec.C14
 import GoProbeModel.Spec.C23
 import GoProbeModel.Spec.C17
 import GoProbeModel.Spec.C12
+import GoProbeModel.Spec.C04
 
 /-!
 `gpjudge`: executable specs. Reads lines `<Cxx> <case fields…> => <implementation output>` and
@@ -21,5 +22,6 @@ def main : IO Unit := DriverLoop.runJudge [
   ("C14", C14.judge),
   ("C23", C23.judge),
   ("C17", C17.judge),
-  ("C12", C12.judge)
+  ("C12", C12.judge),
+  ("C04", C04.judge)
 ]
